@@ -49,15 +49,61 @@ type lifeRun struct {
 	facts    map[string]int
 	log      *InvLog
 	cycles   int
+	stuck    error // a harness call into the service did not return
 }
 
 var rebindCounter int64
 
 var lifeScriptFail = []byte(`{"method":"x.y.Fail","parameters":{"conn":0,"id":0,"script":[{"op":"fail"}]}}`)
 
+// api runs one of the harness's own calls into the service under the bound: such a call only takes the
+// service's lock for an instant, so one that does not return means a lock left held.
+func (r *lifeRun) api(what string, f func()) error {
+	if r.stuck != nil {
+		return r.stuck
+	}
+	done := make(chan struct{})
+	go func() { f(); close(done) }()
+	select {
+	case <-done:
+		return nil
+	case <-time.After(r.bound):
+		r.stuck = fmt.Errorf("%s did not return within %v: the service's lock is still held by an earlier call", what, r.bound)
+		return r.stuck
+	}
+}
+
+func (r *lifeRun) shutdown() {
+	r.api("Shutdown", func() { r.svc.Shutdown() })
+}
+
+func (r *lifeRun) active() int64 {
+	n := int64(-999)
+	r.api("reading the connection count", func() { n = r.svc.VerifActiveConnections() })
+	return n
+}
+
+func (r *lifeRun) listener() net.Listener {
+	var l net.Listener
+	r.api("GetListener", func() { l, _ = r.svc.GetListener() })
+	return l
+}
+
+func (r *lifeRun) bind(addr string) error {
+	var err error
+	if aerr := r.api("Bind", func() { err = r.svc.Bind(context.Background(), addr) }); aerr != nil {
+		return aerr
+	}
+	return err
+}
+
+func (r *lifeRun) setListener(l net.Listener) {
+	r.api("installing the listener", func() { r.svc.VerifSetListener(l) })
+}
+
 func (r *lifeRun) start() error {
 	r.fake = NewFakeListener()
-	r.svc.VerifSetListener(r.fake)
+	r.setListener(r.fake)
 	ctx, cancel := context.WithCancel(context.Background())
 	r.cancel = cancel
 	r.done = make(chan error, 1)
@@ -84,7 +130,7 @@ func (r *lifeRun) waitBlocked() bool {
 func (r *lifeRun) waitActive(n int) error {
 	dl := time.Now().Add(r.bound)
 	for {
-		got := r.svc.VerifActiveConnections()
+		got := r.active()
 		if got == int64(n) {
 			return nil
 		}
@@ -152,13 +198,13 @@ func (r *lifeRun) awaitReturn(timeoutErr bool) error {
 		} else if r.wantNil && e != nil {
 			return fmt.Errorf("Shutdown found the service waiting for a connection, but the serving call returned %v instead of nil", e)
 		}
-		if n := r.svc.VerifActiveConnections(); n != 0 {
+		if n := r.active(); n != 0 {
 			return fmt.Errorf("the serving call returned while the active-connection count is %d", n)
 		}
 		if atomic.LoadInt32(&r.fake.CloseN) == 0 {
 			return fmt.Errorf("the serving call returned (%v) without releasing the listening endpoint: the listener was never closed", e)
 		}
-		if l, _ := r.svc.GetListener(); l != nil {
+		if l := r.listener(); l != nil {
 			return fmt.Errorf("the serving call returned but the service still holds a listener")
 		}
 		return nil
@@ -168,6 +214,14 @@ func (r *lifeRun) awaitReturn(timeoutErr bool) error {
 }
 
 func (r *lifeRun) step(op LOp) error {
+	err := r.step1(op)
+	if r.stuck != nil {
+		return r.stuck
+	}
+	return err
+}
+
+func (r *lifeRun) step1(op LOp) error {
 	pick := func() int {
 		if len(r.open) == 0 {
 			return -1
@@ -216,7 +270,7 @@ func (r *lifeRun) step(op LOp) error {
 		r.facts["connect-expiry"]++
 		r.facts["expiry-busy"]++
 		dl := time.Now().Add(r.bound)
-		for !(r.svc.VerifActiveConnections() == int64(len(r.open)) && atomic.LoadInt32(&r.fake.AcceptN) >= acceptK+2 && r.fake.Blocked() && r.fake.Pending() == 0) {
+		for !(r.active() == int64(len(r.open)) && atomic.LoadInt32(&r.fake.AcceptN) >= acceptK+2 && r.fake.Blocked() && r.fake.Pending() == 0) {
 			if e, ok := r.returned(); ok {
 				return fmt.Errorf("an accept-timeout expiry right after a connection was accepted stopped the service (returned %v) although that connection is open", e)
 			}
@@ -224,7 +278,7 @@ func (r *lifeRun) step(op LOp) error {
 				return fmt.Errorf("an accept-timeout expiry right after a connection was accepted made the service release its listener (stop serving) although that connection is open")
 			}
 			if time.Now().After(dl) {
-				return fmt.Errorf("after connection + expiry the loop did not settle in Accept with %d accounted connections (count %d)", len(r.open), r.svc.VerifActiveConnections())
+				return fmt.Errorf("after connection + expiry the loop did not settle in Accept with %d accounted connections (count %d)", len(r.open), r.active())
 			}
 			time.Sleep(50 * time.Microsecond)
 		}
@@ -338,7 +392,7 @@ func (r *lifeRun) step(op LOp) error {
 			rc = &lifeConn{c: c, id: r.nextID}
 			r.nextID++
 		}
-		r.svc.Shutdown()
+		r.shutdown()
 		r.serving, r.draining, r.wantNil = false, true, true
 		r.facts[op.Op]++
 		if rc != nil {
@@ -367,8 +421,8 @@ func (r *lifeRun) step(op LOp) error {
 			return nil
 		}
 		r.fake = NewFakeListener()
-		r.svc.VerifSetListener(r.fake)
-		r.svc.Shutdown()
+		r.setListener(r.fake)
+		r.shutdown()
 		ctx, cancel := context.WithCancel(context.Background())
 		r.cancel = cancel
 		r.done = make(chan error, 1)
@@ -378,7 +432,7 @@ func (r *lifeRun) step(op LOp) error {
 		select {
 		case <-r.done:
 			cancel()
-			if n := r.svc.VerifActiveConnections(); n != 0 {
+			if n := r.active(); n != 0 {
 				return fmt.Errorf("active-connection count %d after a serving call that never accepted anything", n)
 			}
 			return nil
@@ -407,7 +461,7 @@ func (r *lifeRun) step(op LOp) error {
 			if !r.waitBlocked() {
 				return fmt.Errorf("the loop is not waiting in Accept")
 			}
-			r.svc.Shutdown()
+			r.shutdown()
 			r.serving, r.draining, r.wantNil = false, true, true
 		}
 		return r.awaitReturn(false)
@@ -416,14 +470,14 @@ func (r *lifeRun) step(op LOp) error {
 			return nil
 		}
 		r.facts["bind-during-serving"]++
-		err := r.svc.Bind(context.Background(), fmt.Sprintf("unix:@verif-bindagain-%d", time.Now().UnixNano()))
+		err := r.bind(fmt.Sprintf("unix:@verif-bindagain-%d", time.Now().UnixNano()))
 		if err == nil {
-			if l, _ := r.svc.GetListener(); l != nil && l != net.Listener(r.fake) {
+			if l := r.listener(); l != nil && l != net.Listener(r.fake) {
 				l.Close()
 			}
 			return fmt.Errorf("a second Bind while the service is serving was accepted")
 		}
-		if l, _ := r.svc.GetListener(); l != net.Listener(r.fake) {
+		if l := r.listener(); l != net.Listener(r.fake) {
 			return fmt.Errorf("a refused Bind during serving replaced the listener")
 		}
 		if len(r.open) > 0 {
@@ -435,10 +489,10 @@ func (r *lifeRun) step(op LOp) error {
 		}
 		// after serving ended - however it ended - the object must accept a Bind again
 		baddr := fmt.Sprintf("unix:@verif-rebind-%d-%d", os.Getpid(), atomic.AddInt64(&rebindCounter, 1))
-		if berr := r.svc.Bind(context.Background(), baddr); berr != nil {
+		if berr := r.bind(baddr); berr != nil {
 			return fmt.Errorf("after the serving call returned, Bind(%q) on the same service object is refused: %v", baddr, berr)
 		}
-		if l, _ := r.svc.GetListener(); l != nil {
+		if l := r.listener(); l != nil {
 			l.Close()
 		}
 		if err := r.start(); err != nil {
@@ -471,7 +525,7 @@ func (r *lifeRun) step(op LOp) error {
 		if n > 0 {
 			return fmt.Errorf("a connection arriving after Shutdown returned and serving ended was answered")
 		}
-		if atomic.LoadInt32(&r.fake.AcceptN) != before && r.svc.VerifActiveConnections() != 0 {
+		if atomic.LoadInt32(&r.fake.AcceptN) != before && r.active() != 0 {
 			return fmt.Errorf("a connection arriving after serving ended was accepted")
 		}
 	}
@@ -518,7 +572,31 @@ func checkDeadlines(l *FakeListener, timeout time.Duration) string {
 }
 
 // ExecLife runs a lifecycle history; the returned facts feed the non-triviality rules.
-func ExecLife(c LifeCase, bound time.Duration) (facts map[string]int, err error) {
+// ExecLife runs the case under an overall bound as well: the harness itself calls Bind, Shutdown and
+// GetListener, and a change that makes one of them block for ever (a lock left held on an error path)
+// must end as a reported failure, not as a check that never finishes.
+func ExecLife(c LifeCase, bound time.Duration) (map[string]int, error) {
+	type res struct {
+		facts map[string]int
+		err   error
+	}
+	var at atomic.Value
+	at.Store("start")
+	ch := make(chan res, 1)
+	go func() {
+		f, err := execLife(c, bound, &at)
+		ch <- res{f, err}
+	}()
+	total := time.Duration(len(c.Ops)+4) * 2 * bound * WatchdogScale()
+	select {
+	case r := <-ch:
+		return r.facts, r.err
+	case <-time.After(total):
+		return map[string]int{}, fmt.Errorf("%s: the harness's own call into the service (Bind, Shutdown, GetListener or the connection count) did not complete within %v - a lock is still held", at.Load(), total)
+	}
+}
+
+func execLife(c LifeCase, bound time.Duration, at *atomic.Value) (facts map[string]int, err error) {
 	bound *= WatchdogScale()
 	svc, nerr := varlink.NewService("v", "p", "1", "u")
 	if nerr != nil {
@@ -542,7 +620,7 @@ func ExecLife(c LifeCase, bound time.Duration) (facts map[string]int, err error)
 			lc.c.Close()
 		}
 		if r.serving || r.draining {
-			r.svc.Shutdown()
+			r.shutdown()
 			select {
 			case <-r.done:
 			case <-time.After(bound):
@@ -552,6 +630,7 @@ func ExecLife(c LifeCase, bound time.Duration) (facts map[string]int, err error)
 	}()
 	for i, op := range c.Ops {
 		before := r.fake
+		at.Store(fmt.Sprintf("event %d (%s)", i, op.Op))
 		if serr := r.step(op); serr != nil {
 			return r.facts, fmt.Errorf("event %d (%s): %v", i, op.Op, serr)
 		}
@@ -559,6 +638,7 @@ func ExecLife(c LifeCase, bound time.Duration) (facts map[string]int, err error)
 			fakes = append(fakes, r.fake)
 		}
 	}
+	at.Store("wind-down")
 	// wind down: close everything, shut down if still serving, the call must return
 	for len(r.open) > 0 {
 		lc := r.remove(0)
@@ -572,7 +652,7 @@ func ExecLife(c LifeCase, bound time.Duration) (facts map[string]int, err error)
 			if !r.waitBlocked() {
 				return r.facts, fmt.Errorf("at the end: the loop is not waiting in Accept")
 			}
-			r.svc.Shutdown()
+			r.shutdown()
 			r.serving, r.draining, r.wantNil = false, true, true
 		}
 		if werr := r.awaitReturn(false); werr != nil {
